@@ -71,3 +71,47 @@ Definition is_dnssec_obj (ids : list N) (s : slot name body) : bool :=
 
 (* octets 4..11 of a packed message: the four section counts *)
 Definition u16_at (b : buf) (off : nat) : N := (nth off b 0 * 256 + nth (S off) b 0)%N.
+
+(* ---- the two consumers that use the bytes on the spot ---- *)
+
+(* middleware responseWriter.WriteMsg: on a writer that declared AllowDirectPack and is not an
+   internal sub-query writer the reply goes through wire.TryPack and the consumer hands the bytes to
+   Transport.Write; otherwise, or when TryPack declines, the message goes to Transport.WriteMsg,
+   which packs it with the library. *)
+Inductive sent := SentBytes (b : buf) | SentMsg (m : msg name body).
+
+Definition write_msg_c (direct internal : bool) (st : pstate name body dict) (m : msg name body)
+  : sent * pstate name body dict :=
+  if direct && negb internal
+  then let r := try_pack_c st m in
+       match tp_bytes name body dict r with
+       | Some b => (SentBytes b, tp_state name body dict r)
+       | None => (SentMsg (tp_msg name body dict r), tp_state name body dict r)
+       end
+  else (SentMsg m, st).
+
+(* the reply's wire form as it leaves the transport *)
+Definition wire_form (s : sent) : lib_result :=
+  match s with SentBytes b => LOk b | SentMsg m => fst (lib_pack_c m) end.
+
+(* middleware validatedNegativeProofFingerprint: sealed = {Rcode, Ns} of the proof, hashed where the
+   packer's consumer sees it, or — when TryPack declines — after the library's own Pack *)
+Definition sealed_view (m : msg name body) : msg name body :=
+  mk_msg name body (mk_mhdr 0 false 0 false false false false false false false (h_rcode (m_hdr name body m)))
+         false [] [] (m_ns name body m) [].
+
+Inductive fp_result (D : Type) := FpSum (d : D) | FpInvalid | FpPanic.
+Arguments FpSum {D} d.
+Arguments FpInvalid {D}.
+Arguments FpPanic {D}.
+
+Definition fp_of_lib {D : Type} (H : buf -> D) (r : lib_result) : fp_result D :=
+  match r with LOk b => FpSum (H b) | LErr => FpInvalid | LPanic => FpPanic end.
+
+Definition fingerprint_c {D : Type} (H : buf -> D) (st : pstate name body dict) (m : msg name body)
+  : fp_result D * pstate name body dict :=
+  let r := try_pack_c st (sealed_view m) in
+  match tp_bytes name body dict r with
+  | Some b => (FpSum (H b), tp_state name body dict r)
+  | None => (fp_of_lib H (fst (lib_pack_c (tp_msg name body dict r))), tp_state name body dict r)
+  end.
